@@ -88,6 +88,7 @@ class Harness(cm.BaseB):
                     out.append({"k": "cmd", "lw": lw, "wells": ws[i : i + step]})
         out.append({"k": "args"})
         out.append({"k": "alt"})
+        out.append({"k": "block"})
         for a in range(len(WASH_CLASSES)):
             out.append({"k": "wash", "a": a, "maxdev": 2 if tier == "quick" else 3})
         return out
@@ -107,6 +108,13 @@ class Harness(cm.BaseB):
                     for wb in wells_of(b)[:4]:
                         for op in ("evo_aspirate", "evo_dispense"):
                             yield {"k": "alt", "first": [a, wa], "lw": b, "wells": [wb], "tips": [0], "vk": "scalar", "op": op, "via": "wl"}
+        elif chunk["k"] == "block":
+            # wells of one labware column handed over as a 2-D array (read column-major, like every array argument)
+            for op in ("evo_aspirate", "evo_dispense"):
+                for lw, block in (("p83", [["A01", "C01"], ["B01", "D01"]]), ("p83", [["A02", "B02", "C02"]]), ("p83", [["A01"], ["B01"], ["C01"]]), ("g42", [["A01", "C01"], ["B01", "D01"]]), ("p83", [["A03", "C03", "E03"], ["B03", "D03", "F03"]])):
+                    for vk in ("scalar", "list", "2d"):
+                        for layout in ("C", "F"):
+                            yield {"k": "block", "op": op, "lw": lw, "block": block, "vk": vk, "layout": layout}
         elif chunk["k"] == "args":
             for op in ("evo_aspirate", "evo_dispense"):
                 for via in ("wl", "fn"):
@@ -168,6 +176,46 @@ class Harness(cm.BaseB):
             if abs((robot.vol["L"][c] - init[c][0]) - w_) > Fraction(1, 1000):
                 V.append(("C13/command-disagrees-with-tracking", f"{case}: command changes {well_id(*c)} by {float(robot.vol['L'][c] - init[c][0])}, the call asked for {float(w_)}: {rec!r}"))
         return "big:ok", repr(case), V
+
+    def one_block(self, case):
+        import numpy as np
+
+        op, lwn, block = case["op"], case["lw"], case["block"]
+        R, C = len(block), len(block[0])
+        order = [block[r][c] for c in range(C) for r in range(R)]  # column-major reading
+        n = len(order)
+        tips = list(range(1, n + 1))
+        vlist = [10.0 + 2.5 * i for i in range(n)]
+        warr = np.array(block) if case["layout"] == "C" else np.asfortranarray(np.array(block))
+        if case["vk"] == "scalar":
+            vols, vlist = 10.0, [10.0] * n
+        elif case["vk"] == "list":
+            vols = list(vlist)
+        else:
+            vols = np.array([[vlist[c * R + r] for c in range(C)] for r in range(R)])
+            if case["layout"] == "F":
+                vols = np.asfortranarray(vols)
+        lw, geo = build(lwn)
+        exc, recs, before, after = self.execute(op, "wl", lw, geo, warr, tips, vols)
+        if exc is not None:
+            # the wells are distinct, of one column and ascending in the documented reading order
+            return "block:refused", repr(case), ([("C13/expressible-call-rejected", f"{op}({lwn}, wells={block} as {case['layout']}-ordered 2-D array, tips={tips}, volumes {case['vk']}) raised {type(exc).__name__}: {exc}")] if order == sorted(order) and case["vk"] != "2d" else [])
+        init = {c: (Fraction(float(before[c])), {}) for c in geo.real_wells()}
+        robot = Robot("evo", {"L": geo}, {"L": init}, wl_max=MAXV, site_map={(30, 1): "L"})
+        V = []
+        for rec in recs:
+            p, issues = robot.feed(rec)
+            V += [("C13/command-not-executable", f"{case} -> {rec!r}: {t} {d}") for t, d in issues if t not in ("negative", "below_min", "above_max")]
+        sign = -1 if op == "evo_aspirate" else 1
+        want = {c: Fraction(0) for c in init}
+        for w, v in zip(order, vlist):
+            want[geo.real(w)] += sign * Fraction(v)
+        cmd = {c: robot.vol["L"][c] - init[c][0] for c in init}
+        trk = {c: Fraction(float(after[c])) - Fraction(float(before[c])) for c in init}
+        bad = {well_id(*c): (float(cmd[c]), float(trk[c]), float(want[c])) for c in init if abs(cmd[c] - trk[c]) > Fraction(5, 1000) or abs(trk[c] - want[c]) > Fraction(5, 1000)}
+        if bad:
+            V.append(("C13/command-disagrees-with-tracking", f"{op}({lwn}, wells={block} as {case['layout']}-ordered 2-D array, tips={tips}, volumes {case['vk']} {vlist}) -> {recs}: (command, tracked, requested) change per well {bad}"))
+        return "block:ok", repr(case), V
 
     def one_alt(self, case):
         cm.clear_caches()
